@@ -401,17 +401,32 @@ class StateMachine(object):  # pylint: disable=too-many-public-methods
 
     def dt_2(self):
         """Send P-DATA indication primitive."""
+        if not self._indicate_p_data():
+            return self.aa_8()
+        return States.STA_6
+
+    def _indicate_p_data(self):
+        """Passes current P-DATA-TF PDU to DIMSE decoder and issues P-DATA indication
+        when message is complete.
+
+        :return: ``False`` if PDU content is invalid and can not be processed
+        """
         if self.dimse_decoder is None:
             self.dimse_decoder = DIMSEDecoder(
                 self.accepted_contexts, self.store_in_file,
                 self.get_file_cb
             )
-        self.dimse_decoder.process(self.primitive)
+        try:
+            self.dimse_decoder.process(self.primitive)
+        except Exception:  # pylint: disable=broad-except
+            # invalid PDV, command set that can not be decoded, unknown presentation context
+            self.dimse_decoder = None
+            return False
         if not self.dimse_decoder.receiving:
             msg, pc_id = self.dimse_decoder.msg, self.dimse_decoder.pc_id
             self.to_service_user.put((msg, pc_id))
             self.dimse_decoder = None
-        return States.STA_6
+        return True
 
     def ar_1(self):
         """Send A-RELEASE-RQ PDU."""
@@ -445,16 +460,8 @@ class StateMachine(object):  # pylint: disable=too-many-public-methods
 
     def ar_6(self):
         """Issue P-DATA indication."""
-        if self.dimse_decoder is None:
-            self.dimse_decoder = DIMSEDecoder(
-                self.accepted_contexts, self.store_in_file,
-                self.get_file_cb
-            )
-        self.dimse_decoder.process(self.primitive)
-        if not self.dimse_decoder.receiving:
-            msg, pc_id = self.dimse_decoder.msg, self.dimse_decoder.pc_id
-            self.to_service_user.put((msg, pc_id))
-            self.dimse_decoder = None
+        if not self._indicate_p_data():
+            return self.aa_8()
         return States.STA_7
 
     def ar_7(self):
